@@ -28,8 +28,10 @@ func (v *Vue) evalAttributes(ctx VueContext, n *html.Node) (map[string]any, erro
 		val := strings.Trim(a.Val, " \t\n\r\f")
 
 		// Internal content attributes hold evaluated v-html/v-text output, not template source.
+		// (as it is: white space at the ends of a value given to v-html / v-text is part of it -
+		// the space in "x<a> foo </a>y", the indentation of a code sample in <pre v-text>)
 		if key == "data-v-html-content" || key == "data-v-text-content" {
-			newAttrs = append(newAttrs, html.Attribute{Key: key, Val: val})
+			newAttrs = append(newAttrs, html.Attribute{Key: key, Val: a.Val})
 			continue
 		}
 
